@@ -173,6 +173,7 @@ let parse_op (line : string) : op =
   | ["observe"; n] -> OpObserve (ni n)
   | ["observeexport"; k] -> OpObserveExport (ni k)
   | ["mapexport"; f; k] -> OpMapExport (zi f, ni k)
+  | ["exporthandle"; k] -> OpExportHandle (ni k)
   | ["cloneobs"; o] -> OpCloneObs (ni o)
   | ["dropobs"; o] -> OpDropObs (ni o)
   | ["disallow"; o] -> OpDisallow (ni o)
